@@ -80,8 +80,15 @@ Qed.
 
 (* world built from its fields, overrides unset *)
 Definition mkw (m : mode) (v4 o1 o2 o3 o4 bpf wg wg6 ipv6 : bool) : world :=
-  {| w_mode := m; w_v4 := v4; w_others := (o1, o2, o3, o4); w_ipip_ovr := None; w_vxlan_ovr := None;
+  {| w_mode := m; w_v4 := v4; w_disabled := false; w_nat := false; w_nobgp := false; w_api := false;
+     w_others := (o1, o2, o3, o4); w_ipip_ovr := None; w_vxlan_ovr := None;
      w_bpf := bpf; w_wg := wg; w_wg6 := wg6; w_ipv6 := ipv6 |}.
+
+(* the same world with the pool's other attributes cleared and the pool learnt from the syncer *)
+Definition strip (w : world) : world :=
+  {| w_mode := w_mode w; w_v4 := w_v4 w; w_disabled := false; w_nat := false; w_nobgp := false; w_api := false;
+     w_others := w_others w; w_ipip_ovr := w_ipip_ovr w; w_vxlan_ovr := w_vxlan_ovr w;
+     w_bpf := w_bpf w; w_wg := w_wg w; w_wg6 := w_wg6 w; w_ipv6 := w_ipv6 w |}.
 
 Definition is_class (c : pclass) (m : mode) : bool :=
   match c, class_of m with CVxlan, CVxlan | CIpip, CIpip | CNoEncap, CNoEncap => true | _, _ => false end.
